@@ -41,6 +41,13 @@ Theorem C16_dpseg_no_temp_left_parallel : forall njobs hs, dp_may_leave dp_cfg_s
 Proof. intros njobs hs. apply dp_parallel_no_temp_left; reflexivity. Qed.
 Print Assumptions C16_dpseg_no_temp_left_parallel.
 
+(* parallel runs of ag: at the moment segment() raises, whatever the schedule, no run can have its directory left,
+   because the error is kept until every run is done (fix 49fc37e; without it: Proc.ag_unjoined_may_leave, and the
+   same for the folds of dpseg: Proc.dp_unjoined_may_leave) *)
+Theorem C16_ag_no_temp_left_parallel : forall njobs hs, ag_may_leave ag_cfg_src njobs hs = [].
+Proof. intros njobs hs. apply ag_parallel_no_temp_left; reflexivity. Qed.
+Print Assumptions C16_ag_no_temp_left_parallel.
+
 (* why pipefail matters: without it every failure of the program is masked *)
 Theorem C16_masked_without_pipefail : forall c h, ag_pipefail c = false -> 1 <= ag_after c ->
   ag_run_raises c h = false.
